@@ -547,7 +547,7 @@ func callSSA(i *interpreter, caller *frame, callpos token.Pos, fn *ssa.Function,
 	}
 	i.run.enter(fn)
 	i.depth++
-	if i.depth > 2000 {
+	if i.depth > 20000 {
 		panic(pathEnd{kind: "UNWIND", msg: "call depth exceeded in " + fn.String()})
 	}
 	saved := i.cur
